@@ -8,6 +8,7 @@ CONSTANTS
   Small = FALSE
   Avoid = TRUE
   SimK = 1
+  AccW = TRUE
   Acts = {"xslice", "lins", "ldel"}
 CONSTRAINT LevelBound
 INVARIANT Conforms
